@@ -1439,7 +1439,7 @@ class Task:
             if kind == "global":
                 return ("__global__", val)
         if n in ("max", "min", "len", "int", "float", "isinstance", "getattr", "hasattr", "callable", "bool", "abs",
-                 "setattr", "print", "sorted", "list", "set", "type", "str", "issubclass"):
+                 "setattr", "print", "sorted", "list", "set", "type", "str", "issubclass", "round"):
             return VBuiltin(n)
         if n in ("True", "False", "None"):
             return const_value({"True": True, "False": False, "None": None}[n])
@@ -1886,6 +1886,18 @@ class Task:
                 else:
                     raise Unsupported(f".{f.attr} on {a} (line {node.lineno})")
             return res
+        if isinstance(f, ast.Attribute) and f.attr == "replace" and len(node.args) == 3 and not node.keywords and isinstance(node.args[2], ast.Constant) and node.args[2].value == 1:
+            res = []
+            ok = True
+            for s2, vals, e in self.ev_many([f.value, node.args[0], node.args[1]], st):
+                if e is not None:
+                    res.append((s2, None, e)); continue
+                if all(isinstance(x, V) and x.sort == STR for x in vals):
+                    res.append((s2, vstr(z3.Replace(vals[0].z, vals[1].z, vals[2].z)), None))     # str.replace(a, b, 1): the first occurrence only (SMT-LIB str.replace)
+                else:
+                    ok = False
+            if ok:
+                return res
         if isinstance(f, ast.Attribute) and f.attr == "split" and len(node.args) == 1 and not node.keywords:
             res = []
             handled = True
@@ -2315,6 +2327,11 @@ class Task:
                 res.append((s2, vint(z3.If(z3.Or(x >= 0, z3.ToReal(fl) == x), fl, fl + 1)), None))
             elif name == "int" and isinstance(vals[0], V) and vals[0].sort == INT:
                 res.append((s2, vals[0], None))
+            elif name == "round" and 1 <= len(vals) <= 2 and isinstance(vals[0], V) and vals[0].sort in (REAL, INT):
+                # round(x[, n]): an uninterpreted function within half a unit of the last kept digit (n a literal) - rounding is NOT the identity
+                nd = vals[1] if len(vals) == 2 else vint(0)
+                rx = ROUND(to_real(vals[0]), nd.z if isinstance(nd, V) and nd.sort == INT else z3.IntVal(0))
+                res.append((s2, vreal(rx), None))
             elif name == "issubclass" and len(vals) == 2 and isinstance(vals[0], V) and isinstance(vals[0].sort, RefSort) and isinstance(vals[1], (VDotted, VBuiltin)):
                 cc = z3.Const(f"class.builtins.{vals[1].name}" if isinstance(vals[1], VBuiltin) else f"class.{vals[1].path}", Ref)
                 res.append((s2, vbool(ISSUBCLASS(vals[0].z, cc)), None))       # uninterpreted: the class relation is the interpreter's
@@ -2435,6 +2452,7 @@ CALLABLE = z3.Function("is_callable", Ref, z3.BoolSort())
 ISINSTANCE = z3.Function("isinstance", Ref, Ref, z3.BoolSort())
 TYPE_OF = z3.Function("type_of", Ref, Ref)
 ISSUBCLASS = z3.Function("issubclass", Ref, Ref, z3.BoolSort())
+ROUND = z3.Function("py_round", z3.RealSort(), z3.IntSort(), z3.RealSort())
 
 
 def _base_name(attr_node):
